@@ -32,6 +32,8 @@ FLOORS = {'rt:pi': (0.03, 'rt:node'), 'rt:pos>1': (0.08, 'rt:node'), 'rt:namespa
           'rt:text': (0.10, 'rt:node'), 'rt:parser-with-default-namespace': (0.5, 'rt:node'),
           'fr:fragment-with-same-named-top-level-elements': (0.15, 'fr:fragment'),
           'fr:under-later-same-named-top-level-element': (0.05, 'fr:node'),
+          'sc:attribute-defaulted': (0.15, 'sc:node'), 'sc:default-or-fixed-attribute-set-explicitly': (0.10, 'sc:node'),
+          'rt:root()-path-evaluated-from-attribute-or-namespace-focus': (0.05, 'rt:node'),
           'rt:no-namespace-step-with-default-namespace-twin': (0.0015, 'rt:node'), 'rt:comment': (0.03, 'rt:node'), 'rt:pi-function-name-target': (0.01, 'rt:node')}
 
 FN = 'http://www.w3.org/2005/xpath-functions'
@@ -218,6 +220,15 @@ def judge_roundtrip_one(spec, cfg, rec: Recorder | None = None) -> list[Disc]:
                 discs.append(Disc(f'C14/fn-path/no-string/{kind}', 'a non-empty string', repr(p), detail))
             else:
                 _verdict('fn-path' + dn, _eval(p, top, fr, defns=defns), node, rn, p, discs, detail)
+                if p.startswith('Q{%s}root()' % FN):
+                    # the string must identify the node from ANY focus inside the tree: root() is the root of the tree
+                    # of the context item, whatever its kind (the node itself, and one other node per case)
+                    other_rn = ref.nodes[(ref.nodes.index(rn) * 7 + 3) % len(ref.nodes)]
+                    for frn, fnode in ((rn, node), (other_rn, xdm.ep_find(top, other_rn.addr))):
+                        _verdict(f'fn-path/focus-on-{frn.kind}-node', _eval(p, top, fr, item=fnode), node, rn, p, discs, detail)
+                        if rec is not None:
+                            rec.cls('rt:root()-path-evaluated-from-' + ('attribute-or-namespace' if frn.kind in ('attribute', 'namespace')
+                                                                        else 'other') + '-focus')
                 if p in seen:
                     discs.append(Disc(f'C14/fn-path/duplicate-path/{kind}' + ('/' + _pi_class(rn) if kind == 'pi' else ''),
                                       'distinct strings', p, f'also for node {seen[p]}; ' + detail))
@@ -441,9 +452,133 @@ def judge_fragment(case, rec: Recorder | None = None) -> list[Disc]:
 
 
 # --------------------------------------------------------------------------
+# schema-bound trees: defaulted / fixed attributes
+# --------------------------------------------------------------------------
+_XSD = [
+    # 0: simple content with default, fixed and plain attributes
+    """<xs:schema xmlns:xs="http://www.w3.org/2001/XMLSchema">
+<xs:element name="items"><xs:complexType><xs:sequence>
+ <xs:element name="item" minOccurs="0" maxOccurs="unbounded"><xs:complexType><xs:simpleContent><xs:extension base="xs:string">
+   <xs:attribute name="unit" type="xs:string" default="kg"/><xs:attribute name="cur" type="xs:string" fixed="EUR"/>
+   <xs:attribute name="id" type="xs:string"/>
+ </xs:extension></xs:simpleContent></xs:complexType></xs:element>
+</xs:sequence><xs:attribute name="version" type="xs:string" default="1"/></xs:complexType></xs:element></xs:schema>""",
+    # 1: recursive element type in a target namespace, typed default, two same-named levels
+    """<xs:schema xmlns:xs="http://www.w3.org/2001/XMLSchema" targetNamespace="urn:s" xmlns="urn:s" elementFormDefault="qualified">
+<xs:element name="item" type="T"/>
+<xs:complexType name="T"><xs:sequence><xs:element name="item" type="T" minOccurs="0" maxOccurs="unbounded"/></xs:sequence>
+ <xs:attribute name="k" type="xs:int" default="0"/><xs:attribute name="f" type="xs:string" fixed="x"/>
+ <xs:attribute name="unit" type="xs:string"/></xs:complexType></xs:schema>""",
+]
+_ATTRS = [{'unit': ('kg', 'g', 'kg'), 'cur': ('EUR',), 'id': ('a', 'b')}, {'k': ('0', '5', '0'), 'f': ('x',), 'unit': ('u',)}]
+
+_inst_attrs0 = st.fixed_dictionaries({}, optional={k: st.sampled_from(v) for k, v in _ATTRS[0].items()})
+_inst_attrs1 = st.fixed_dictionaries({}, optional={k: st.sampled_from(v) for k, v in _ATTRS[1].items()})
+_inst1 = st.recursive(st.fixed_dictionaries({'a': _inst_attrs1, 'c': st.just([])}),
+                      lambda ch: st.fixed_dictionaries({'a': _inst_attrs1, 'c': st.lists(ch, max_size=3)}), max_leaves=6)
+_schema_cases = st.one_of(
+    st.fixed_dictionaries({'schema': st.just(0), 'backend': st.sampled_from(['et', 'lxml']), 'rootkind': st.sampled_from(['elem', 'doc']),
+                           'version': st.sampled_from([None, '1', '2']),
+                           'items': st.lists(st.fixed_dictionaries({'a': _inst_attrs0, 't': st.sampled_from(['', '1', 'x'])}), max_size=5)}),
+    st.fixed_dictionaries({'schema': st.just(1), 'backend': st.sampled_from(['et', 'lxml']), 'rootkind': st.sampled_from(['elem', 'doc']),
+                           'root': _inst1}))
+
+
+def _schema_proxy(i):
+    key = ('xsd', i)
+    if key not in _P:
+        import xmlschema
+        from xmlschema.xpath import XMLSchemaProxy
+        _P[key] = XMLSchemaProxy(xmlschema.XMLSchema(_XSD[i]))
+    return _P[key]
+
+
+def _build_instance(case):
+    if case['backend'] == 'lxml':
+        from lxml import etree as E
+    else:
+        import xml.etree.ElementTree as E
+    if case['schema'] == 0:
+        root = E.Element('items')
+        if case['version'] is not None:
+            root.set('version', case['version'])
+        for it in case['items']:
+            e = E.SubElement(root, 'item')
+            for k, v in it['a'].items():
+                e.set(k, v)
+            e.text = it['t']
+    else:
+        def mk(parent, d):
+            e = E.Element('{urn:s}item') if parent is None else E.SubElement(parent, '{urn:s}item')
+            for k, v in d['a'].items():
+                e.set(k, v)
+            for c in d['c']:
+                mk(e, c)
+            return e
+        root = mk(None, case['root'])
+    return root, (E.ElementTree(root) if case['rootkind'] == 'doc' else root)
+
+
+def judge_schema(case, rec: Recorder | None = None) -> list[Disc]:
+    from elementpath import XPathContext, ElementPathError
+    discs: list[Disc] = []
+    proxy = _schema_proxy(case['schema'])
+    root, root_obj = _build_instance(case)
+    where = f'schema{case["schema"]}/{case["backend"]}'
+    try:
+        top = XPathContext(root_obj, schema=proxy).root
+        nodes = list(top.iter())
+    except Exception as e:
+        return [Disc(escape_bucket('C14', e) + '/schema/build', 'schema-bound node tree', repr(e), str(case))]
+    parser31()
+    seen = {}
+    for node in nodes:
+        kind = node.node_kind
+        if kind == 'namespace':
+            continue
+        detail = f'{kind} {getattr(node, "name", None)} {where} case={case}'
+        if kind == 'element':
+            names = [a.name for a in node.attributes]
+            dup = sorted({n for n in names if names.count(n) > 1})
+            if dup:
+                explicit = all(d in node.value.attrib for d in dup)
+                discs.append(Disc(f'C14/schema/two-attribute-nodes-with-one-name/{"set-in-instance" if explicit else "defaulted"}',
+                                  'attribute names of one element are distinct', names, detail))
+        addr = xdm.ep_address(node, top)
+        try:
+            p = node.path
+        except Exception as e:
+            discs.append(Disc(escape_bucket('C14', e) + f'/schema/path-property/{kind}', 'a string', repr(e), detail))
+            continue
+        if p in seen:
+            discs.append(Disc(f'C14/schema/duplicate-path/{kind}', 'distinct strings', p, f'also {seen[p]}; ' + detail))
+        seen.setdefault(p, addr)
+        # evaluated on a fresh schema-bound context of the same input: the node at the same structural address, and only it
+        try:
+            ctx = XPathContext(root_obj, schema=proxy)
+            got = [xdm.ep_address(x, ctx.root) if hasattr(x, 'node_kind') else ('?', repr(x)) for x in _P[None].parse(p).select(ctx)]
+        except ElementPathError as e:
+            discs.append(Disc(f'C14/schema/path-property/error/{kind}', 'selects the node', f'{e!r}: {p}', detail))
+            continue
+        if got != [addr]:
+            fk = 'selects-nothing' if not got else 'selects-several' if len(got) > 1 else 'selects-other-node'
+            defaulted = kind == 'attribute' and node.name not in node.parent.value.attrib
+            discs.append(Disc(f'C14/schema/path-property/{fk}/{kind}' + ('/defaulted' if defaulted else ''), [addr], got, f'path={p} ' + detail))
+        if rec is not None:
+            classes = ['sc:node', f'sc:{kind}']
+            if kind == 'attribute':
+                classes.append('sc:attribute-defaulted' if node.name not in node.parent.value.attrib else 'sc:attribute-set-in-instance')
+                if node.name in ('unit', 'cur', 'k', 'f', 'version') and node.name in node.parent.value.attrib:
+                    classes.append('sc:default-or-fixed-attribute-set-explicitly')
+            rec.case([case, list(map(repr, addr))], nontrivial=kind == 'attribute', classes=classes,
+                     sample={'check': 'schema', 'case': case, 'path': p})
+    return discs
+
+
+# --------------------------------------------------------------------------
 # module interface
 # --------------------------------------------------------------------------
-_JUDGES = {'roundtrip': judge_roundtrip, 'iterpaths': judge_iterpaths, 'fragment': judge_fragment}
+_JUDGES = {'roundtrip': judge_roundtrip, 'iterpaths': judge_iterpaths, 'fragment': judge_fragment, 'schema': judge_schema}
 
 
 def selftest():
@@ -473,19 +608,22 @@ def selftest():
 
 
 def _strategy(job):
+    if job['check'] == 'schema':
+        return _schema_cases
     return _frag_cases(job['max_elems']) if job['check'] == 'fragment' else _cases(job['max_elems'])
 
 
 def jobs(tier, seed):
     q = tier == 'quick'
     out = []
-    nr, ni, nf = (12, 2, 2) if q else (11, 3, 2)
+    nr, ni, nf = (11, 2, 2) if q else (10, 3, 2)
     per_r, per_i, per_f = (800, 1500, 1200) if q else (8000, 16000, 12000)
     me = 10 if q else 24
     for i in range(nr):
         out.append({'check': 'roundtrip', 'shard': i, 'n': per_r, 'max_elems': me, 'seed': derive_seed(seed, 'C14', 'roundtrip', i)})
     for i in range(ni):
         out.append({'check': 'iterpaths', 'shard': i, 'n': per_i, 'max_elems': me, 'seed': derive_seed(seed, 'C14', 'iterpaths', i)})
+    out.append({'check': 'schema', 'shard': 0, 'n': 1500 if q else 15000, 'max_elems': me, 'seed': derive_seed(seed, 'C14', 'schema', 0)})
     for i in range(nf):
         out.append({'check': 'fragment', 'shard': i, 'n': per_f, 'max_elems': me, 'seed': derive_seed(seed, 'C14', 'fragment', i)})
     return out
